@@ -278,9 +278,9 @@ void file_server::normalize_path(std::string &path)
 			if(out > min_pos)
 				out --;
 			while(out > min_pos) {
-				out --;
-				if(*out == '/')
+				if(*(out-1) == '/')
 					break;
+				out --;
 			}
 		}
 		else {
